@@ -184,6 +184,27 @@ pub fn run(ctx: &mut Ctx) {
             }
         }
     }
+    // sums that leave the exactly representable range and come back: (a, small, -a) and permutations for every
+    // ladder integer, all operands integer-typed (and the same with one operand float-typed: the spelling of
+    // an operand does not change a sum)
+    {
+        let lad = al::magnitude_ladder();
+        for a in lad.iter().filter_map(|v| v.as_i64()) {
+            if !ctx.mine() || a == i64::MIN {
+                continue;
+            }
+            for sm in [1i64, 2, 3, -4, 7] {
+                ctx.edge();
+                for t in [[a, sm, -a], [-a, sm, a], [sm, a, -a], [a, -a, sm]] {
+                    ctx.check("+:cancellation:3", &json!({"+": [t[0], t[1], t[2]]}), &null);
+                    ctx.check("+:cancellation:3:float-spelling", &json!({"+": [t[0], t[1] as f64, t[2]]}), &null);
+                    ctx.check("+:cancellation:3:V", &json!({"+": [{"var": 0}, {"var": 1}, {"var": 2}]}), &json!([t[0], t[1], t[2]]));
+                }
+                ctx.check("+:cancellation:5", &json!({"+": [1, 2, a, -10, 1, -a]}), &null);
+                ctx.check("-:cancellation", &json!({"-": [{"+": [a, sm]}, a]}), &null);
+            }
+        }
+    }
     // near-integers: two-decimal fractions against scale factors; the exact result is often one ulp
     // away from a whole number and must not be "tidied" into it
     {
